@@ -17,7 +17,7 @@ Definition wfs_init (ins : list vdesc) (outn : list N) (i : idesc) : bool :=
             | Some j => match nth_error ins j with Some d => N.eqb (vd_pay d) (id_pay i) | None => false end
             | None => false
             end
-       else negb (memN (id_name i) inn)
+       else negb (memN (id_name i) inn) && negb (td_bad t)
 
      end.
 Fixpoint wfs_g (nsc : list (list N)) (T : gtree) : bool :=
@@ -103,16 +103,12 @@ Definition wfs_m (M : mtree) : bool :=
   wfs_g [] (mt_graph M) && forallb wfs_f (mt_funcs M) && nodup_N (map fid_of (mt_funcs M)).
 
 
-(* ---- leaf condition: the tensor of a non-input initializer has a readable dtype/shape and, unless the value is
-   also a graph output, its payload is stable under fill *)
+(* ---- leaf condition: a non-input initializer that is not a graph output has a payload stable under fill *)
 Definition leaf_init (outn : list N) (i : idesc) : bool :=
   match id_tensor i with
   | None => true
-  | Some t => id_input i
-              || (negb (td_bad t)     (* KNOWN DEFECT SITE: a duplicated initializer name attaches the later tensor
-                                         without reading its dtype (finding reser-duplicate-initializer-bad-dtype) *)
-                  && (memN (id_name i) outn
-                      || (negb (N.eqb (id_pay i) 0) && N.eqb (fill_pay' t (id_pay i)) (id_pay i))))
+  | Some t => id_input i || memN (id_name i) outn
+              || (negb (N.eqb (id_pay i) 0) && N.eqb (fill_pay' t (id_pay i)) (id_pay i))
   end.
 Fixpoint leaf_fill_g (T : gtree) : bool :=
   match T with
